@@ -95,18 +95,19 @@ func c02Master(c *Ctx) {
 		return
 	}
 	ct := b.CallTermAt(npk[0])
-	pat := "call<*>(p1, slice(call<(hash.Hash).Sum>(ext#0(call<*>(call<(" + slipPkg + "Curve).HmacKey>(p1), slice(obj(alloc<[1][]byte>, store(iaddr(self, 0), $S)), 0, none))), _), 0, 32))"
-	bd, ok := ana.Match(pat, ct)
+	// I = HMAC-SHA512(key = curve.HmacKey(), data = S): the keyed hash with S written, then Sum — whether the private
+	// helper hands back the hash object or the digest (the matcher looks through it, unrolling its loop over the parts)
+	pat := "call<*>(p1, slice(call<(hash.Hash).Sum>(obj(call<crypto/hmac.New>(func<crypto/sha512.New>, call<(" + slipPkg + "Curve).HmacKey>(p1)), call<(hash.Hash).Write>(self, $S)), _), 0, 32))"
+	bd, ok := ana.MatchX(c.P, pat, ct)
 	if !ok {
 		r.Viol("C02.master-hmac.key-input", c.ipos(npk[0]), "NewPrivateKey argument is not HMAC(curve.HmacKey(), [S]).Sum(..)[0:32]: %s", ana.Explain(pat, ct))
 		return
 	}
 	r.OK("C02.master-hmac.key-input", c.ipos(npk[0]), "key = curve.NewPrivateKey(I[0:32]), I = HMAC-SHA512(curve.HmacKey(), S)")
-	// the Sum result used for I
+	r.OK("C02.master-hmac.hmac-helper", c.ipos(npk[0]), "HMAC = hmac.New(sha512.New, key) with the single data part written, then Sum (decided on the expanded term of this call site)")
+	// the value used for I
 	sumT := ct.Arg(1).Arg(0)
-	sumCall, _ := sumT.V.(*ssa.Call)
-	hm := ct.Arg(1).Arg(0).Arg(0).Arg(0)
-	c02HmacHelper(c, calleeOf(hm), "C02.master-hmac")
+	sumCall := sumT.V
 	// S = phi(seed, I)
 	sOK := false
 	if phi, isPhi := bd["$S"].V.(*ssa.Phi); isPhi && sumCall != nil {
@@ -115,7 +116,7 @@ func c02Master(c *Ctx) {
 			switch {
 			case e == ssa.Value(fn.Params[0]):
 				seenSeed = true
-			case b.Root(e) == ssa.Value(sumCall) || e == ssa.Value(sumCall):
+			case b.Root(e) == sumCall || e == sumCall:
 				seenI = true
 			default:
 				other = true
@@ -137,7 +138,7 @@ func c02Master(c *Ctx) {
 		cc, _ := ana.Find("store(faddr<ChainCode>(self), slice($I, 32, $hi))", vt)
 		kk, _ := ana.Find("store(faddr<Key>(self), ext#0($call))", vt)
 		pp, _ := ana.Find("store(faddr<#2>(self), $p)", vt)
-		okC := cc != nil && b.Root(cc.Arg(1).Arg(0).V) == ssa.Value(sumCall) && (cc.Arg(1).Arg(2).Is("none") || cc.Arg(1).Arg(2).IsInt(64))
+		okC := cc != nil && (b.Root(cc.Arg(1).Arg(0).V) == sumCall || cc.Arg(1).Arg(0).V == sumCall) && (cc.Arg(1).Arg(2).Is("none") || cc.Arg(1).Arg(2).IsInt(64))
 		okK := kk != nil && kk.Arg(1).Arg(0).V == npk[0].Value()
 		okP := pp == nil || pp.Arg(1).Is("nil")
 		r.Check(okC && okK && okP, "C02.master-hmac.result", c.ipos(e.Instr), "master = {ChainCode: I[32:], Key: the NewPrivateKey result, parent: nil} (chain=%v key=%v parent=%v)", okC, okK, okP)
@@ -196,43 +197,73 @@ func c02Derive(c *Ctx) {
 	key := "load(faddr<Key>(p0))"
 	chain := "load(faddr<ChainCode>(p0))"
 	idx := "call<*>(p1)" // BE32 helper
-	hard := "call<*>(" + chain + ", slice(obj(alloc<[3][]byte>, store(iaddr(self, 0), slice(obj(alloc<[1]byte>, store(iaddr(self, 0), 0)), 0, none)), store(iaddr(self, 1), call<(" + slipPkg + "Key).Bytes>(" + key + ")), store(iaddr(self, 2), " + idx + ")), 0, none))"
-	norm := "call<*>(" + chain + ", slice(obj(alloc<[2][]byte>, store(iaddr(self, 0), call<(" + slipPkg + "Key).Bytes>(call<(" + slipPkg + "Key).Public>(" + key + "))), store(iaddr(self, 1), " + idx + ")), 0, none))"
-	retry := "call<*>(" + chain + ", slice(obj(alloc<[3][]byte>, store(iaddr(self, 0), slice(obj(alloc<[1]byte>, store(iaddr(self, 0), 1)), 0, none)), store(iaddr(self, 1), slice($I, 32, $hi)), store(iaddr(self, 2), " + idx + ")), 0, none))"
+	// the keyed hash object after writing the data parts in order, and its digest; the private HMAC helper is looked
+	// through by the matcher (parameters bound to the arguments, the loop over the variadic parts unrolled), so it may
+	// return the hash object or the finished digest and take its arguments in any order
+	ho := func(parts ...string) string {
+		t := "obj(call<crypto/hmac.New>(func<crypto/sha512.New>, " + chain + ")"
+		for _, p := range parts {
+			t += ", call<(hash.Hash).Write>(self, " + p + ")"
+		}
+		return t + ")"
+	}
+	one := func(v string) string { return "slice(obj(alloc<[1]byte>, store(iaddr(self, 0), " + v + ")), 0, none)" }
+	layouts := map[string]string{
+		"hardened": ho(one("0"), "call<("+slipPkg+"Key).Bytes>("+key+")", idx),
+		"normal":   ho("call<("+slipPkg+"Key).Bytes>(call<("+slipPkg+"Key).Public>("+key+"))", idx),
+		"retry":    ho(one("1"), "slice($I, 32, $hi)", idx),
+	}
+	classify := func(t *ana.Term) (string, ana.Binds) { // which layout the digest / hash-object term t has
+		for _, name := range []string{"hardened", "normal", "retry"} {
+			if bd, ok := ana.MatchX(c.P, "call<(hash.Hash).Sum>("+layouts[name]+", _)", t); ok {
+				return name, bd
+			}
+			if bd, ok := ana.MatchX(c.P, layouts[name], t); ok {
+				return name, bd
+			}
+		}
+		return "", nil
+	}
 
-	var hmacFn, be32Fn *ssa.Function
-	var hardCall, normCall, retryCall ssa.CallInstruction
-	nH := 0
+	var be32Fn *ssa.Function
+	var hmacSites []ssa.CallInstruction
+	site := map[string]ssa.CallInstruction{}
+	retryI := map[string]*ana.Term{}
 	for _, ci := range ana.Calls(fn) {
 		cal := ana.StaticRepoCallee(ci.Common())
-		if cal == nil || len(ci.Common().Args) != 2 {
+		if cal == nil {
 			continue
 		}
 		t := b.CallTermAt(ci)
-		if !strings.HasPrefix(t.Arg(0).String(), "load(faddr<ChainCode>") {
+		keyed := false
+		for _, a := range t.Args {
+			if strings.HasPrefix(a.String(), "load(faddr<ChainCode>") {
+				keyed = true
+			}
+		}
+		if !keyed {
+			if len(t.Args) == 1 && t.Arg(0).IsParam(1) && be32Fn == nil {
+				be32Fn = cal // the index serialisation, wherever it is computed
+			}
 			continue
 		}
-		nH++
-		hmacFn = cal
-		switch {
-		case matches(hard, t):
-			hardCall = ci
-		case matches(norm, t):
-			normCall = ci
-		case matches(retry, t):
-			retryCall = ci
-		default:
+		hmacSites = append(hmacSites, ci)
+		name, bd := classify(&ana.Term{Op: "ext", Idx: 0, V: nil, Args: []*ana.Term{t}})
+		if name == "" {
 			r.Viol("C02.ckd-data.layout", c.ipos(ci), "HMAC input is none of the three SLIP-0010 layouts: %s", short(t.String(), 500))
+			continue
 		}
-		if w, _ := ana.Find("store(iaddr(self, $k), call<*>(p1))", t); w != nil {
-			be32Fn = calleeOf(w.Arg(1))
+		site[name] = ci
+		if name == "retry" {
+			retryI["$I"] = bd["$I"]
 		}
 	}
-	r.Floor("C02.floor.hmac-sites", nH, 3, "HMAC call sites in DeriveChild")
+	hardCall, normCall, retryCall := site["hardened"], site["normal"], site["retry"]
+	r.Floor("C02.floor.hmac-sites", len(hmacSites), 3, "HMAC call sites in DeriveChild")
 	r.Check(hardCall != nil, "C02.ckd-data.hardened", c.P.Pos(fn.Pos()), "hardened input = [0x00] ‖ e.Key.Bytes() ‖ BE32(index), keyed with e.ChainCode")
 	r.Check(normCall != nil, "C02.ckd-data.normal", c.P.Pos(fn.Pos()), "normal input = e.Key.Public().Bytes() ‖ BE32(index), keyed with e.ChainCode")
 	r.Check(retryCall != nil, "C02.ckd-data.retry", c.P.Pos(fn.Pos()), "retry input = [0x01] ‖ I[32:] ‖ BE32(index), keyed with e.ChainCode")
-	c02HmacHelper(c, hmacFn, "C02.ckd-data")
+	r.Check(hardCall != nil && normCall != nil && retryCall != nil, "C02.ckd-data.hmac-helper", c.P.Pos(fn.Pos()), "each HMAC = hmac.New(sha512.New, e.ChainCode) with every data part written in order (decided on the expanded term of each call site)")
 	// BE32 helper
 	if be32Fn != nil {
 		r.Fn(ana.ShortFunc(be32Fn))
@@ -295,27 +326,32 @@ func c02Derive(c *Ctx) {
 			}
 			walk(phi)
 			for _, e := range leaves {
-				sum, isCall := e.(*ssa.Call)
-				if !isCall || ana.CalleeName(&sum.Call) != "(hash.Hash).Sum" {
+				// each way I is computed is the digest of one of the three HMACs made above
+				name, _ := classify(b.Of(e, shifts[0]))
+				if name == "" {
 					iOK = false
 					continue
 				}
-				ex, isEx := sum.Call.Value.(*ssa.Extract)
-				if !isEx {
+				// … and belongs to that call site: the leaf is (derived from) the result of the site's call
+				var from ssa.CallInstruction
+				for _, ci := range hmacSites {
+					if cv := ci.Value(); cv != nil && (ssa.Value(cv) == e || derivesFrom(e, cv)) {
+						from = ci
+					}
+				}
+				if from == nil || site[name] != from {
 					iOK = false
 					continue
 				}
-				hc, _ := ex.Tuple.(*ssa.Call)
-				srcs[hc] = true
+				srcs[from] = true
 			}
 			iOK = iOK && hardCall != nil && normCall != nil && retryCall != nil && srcs[hardCall] && srcs[normCall] && srcs[retryCall] && len(srcs) == 3
 		}
 	}
 	r.Check(ok && iOK, "C02.ckd-data.shift", c.ipos(shifts[0]), "child = e.Key.Shift(I[0:32]) where I is the Sum of exactly the hardened, normal or retry HMAC")
 	if retryCall != nil && iVal != nil {
-		rt := b.CallTermAt(retryCall)
-		rb, _ := ana.Match(retry, rt)
-		r.Check(rb != nil && rb["$I"].V == iVal, "C02.ckd-data.retry-uses-IR", c.ipos(retryCall), "the retry hashes I_R of the same I whose I_L was rejected")
+		rI := retryI["$I"]
+		r.Check(rI != nil && rI.V == iVal, "C02.ckd-data.retry-uses-IR", c.ipos(retryCall), "the retry hashes I_R of the same I whose I_L was rejected")
 	}
 	for _, e := range ana.Exits(fn) {
 		if e.Panic {
@@ -342,8 +378,8 @@ func c02Derive(c *Ctx) {
 		if _, ok := ana.Match("load(global<"+slipPkg+"ErrHardenedChildPublicKey>)", b.Of(e.Results[1], e.Instr)); ok {
 			np := plainEdges(edgesMatching(b, "un<!>(call<(*"+slipPkg+"ExtendedKey).IsPrivate>(p0))"))
 			noHmacBefore := true
-			for _, ci := range ana.Calls(fn) {
-				if ana.StaticRepoCallee(ci.Common()) == hmacFn && ana.InstrDominates(ci, e.Instr) {
+			for _, ci := range hmacSites {
+				if ana.InstrDominates(ci, e.Instr) {
 					noHmacBefore = false
 				}
 			}
@@ -373,7 +409,7 @@ func c02Derive(c *Ctx) {
 	okGate := len(vEdges) == 1 && len(assertOK) == 1
 	for _, ci := range ana.Calls(fn) {
 		n := ana.CalleeName(ci.Common())
-		if ana.StaticRepoCallee(ci.Common()) == hmacFn || strings.HasSuffix(n, "Key).Shift") {
+		if isHmacSite(hmacSites, ci) || strings.HasSuffix(n, "Key).Shift") {
 			if !mustPass(fn, ci.Block(), gate) {
 				okGate = false
 			}
@@ -381,6 +417,49 @@ func c02Derive(c *Ctx) {
 	}
 	r.Check(okGate, "C02.nonhardened-outcome.gate-first", c.P.Pos(fn.Pos()), "DeriveChild consults e.Key's IndexValidator (if implemented) and returns its error before any HMAC or Shift")
 	c02Outcome(c)
+}
+
+func isHmacSite(sites []ssa.CallInstruction, ci ssa.CallInstruction) bool {
+	for _, x := range sites {
+		if x == ci {
+			return true
+		}
+	}
+	return false
+}
+
+// derivesFrom: v is computed from the result of call (an extracted result, or a method call on / with one).
+func derivesFrom(v ssa.Value, call ssa.Value) bool {
+	seen := map[ssa.Value]bool{}
+	var rec func(x ssa.Value, d int) bool
+	rec = func(x ssa.Value, d int) bool {
+		if x == call {
+			return true
+		}
+		if d > 6 || seen[x] {
+			return false
+		}
+		seen[x] = true
+		switch y := x.(type) {
+		case *ssa.Extract:
+			return rec(y.Tuple, d+1)
+		case *ssa.Call:
+			if y.Call.IsInvoke() && rec(y.Call.Value, d+1) {
+				return true
+			}
+			for _, a := range y.Call.Args {
+				if rec(a, d+1) {
+					return true
+				}
+			}
+		case *ssa.Slice:
+			return rec(y.X, d+1)
+		case *ssa.ChangeType:
+			return rec(y.X, d+1)
+		}
+		return false
+	}
+	return rec(v, 0)
 }
 
 func matches(p string, t *ana.Term) bool { _, ok := ana.Match(p, t); return ok }
